@@ -13,6 +13,9 @@ THEOREMS = [_P + n for n in (
     # clause 1 (location), live part-by-part variant
     'C19_caret_split', 'C19_caret_uniform', 'C19_review_caret_uniform_line', 'C19_review_full_caret_holds',
     'C19_eof_caret_uniform', 'C19_review_srcChain_example', 'C19_review_srcChain_example2', 'C19_lexer_caret',
+    # round 5: the lexer-error path over texts (every line-separator character is an ordinary character of a line)
+    'C19_full_lexer_caret_holds', 'C19_lexer_caret_text', 'C19_lexer_line_unique', 'C19_partial_r5',
+    'C19_regress_splitlines_crlf', 'C19_regress_splitlines_wrong_line', 'C19_regress_splitlines_separator_char',
     # clause 2 (which token), parser level
     'C19_bad_token_prefix', 'C19_bad_token_prefix_mindsdb', 'C19_bad_token_deterministic',
     'C19_no_accepted_continuation', 'C19_bad_token_deterministic_mindsdb',
@@ -28,6 +31,11 @@ THEOREMS = [_P + n for n in (
 ASSUME = [
     'ErrorHandling.error_location (live part-by-part variant) / make_suggestion / process and MindsDBLexer.error are '
     'hand-modelled (MindsVerif.Err); tie = stream `err-message` of this run (model message == real message, byte for byte)',
+    'MindsDBLexer.error over TEXTS (C19_full_lexer_caret_holds): the complete message incl. the header is the model `lexErrorMsg`; '
+    'tie = stream `err-lex` of this run (texts under every line-separator family: LF, CRLF, CR, LF CR, mixed, Unicode / control '
+    'separators inside tokens / comments and as the offending character) + the extractor flags ErrLex.lexLineSeps = [10], '
+    'ErrLex.lexCaretOnChar; WHICH offset the lexer reports is an input taken from the real LexError (lexer not modelled); repr of the '
+    'character is exact below U+0100 and for U+2028/9, other code points are assumed printable (non-printable ones are skipped in the stream)',
     'the lexer is not modelled: its semantics (value = source slice, lineno = 1 + newlines before index, tokens in text order '
     'without overlap) is the hypothesis SrcChain of C19_full_caret_holds; it is checked on every token list of the stream '
     '(obligations `probe:value-is-source`, `probe:lineno-uniform`, `probe:layout-invariant`) and pinned by the extractor flags '
@@ -368,7 +376,24 @@ def probe_case(text, earley, kind=None, msg=None):
     return out
 
 
+LINE_BREAKS = '\n\r\x0b\x0c\x1c\x1d\x1e\x85\u2028\u2029'      # the boundaries of str.splitlines()
+BREAK_RE = re.compile('\r\n|[' + LINE_BREAKS + ']')
+
+
+def eol_family(sql):
+    """which line-separator convention(s) the text uses (for the distribution / failure context)"""
+    kinds = set(BREAK_RE.findall(sql))
+    base = kinds & {'\n', '\r\n', '\r'}
+    names = {'\n': 'lf', '\r\n': 'crlf', '\r': 'cr'}
+    out = 'one-line' if not kinds else 'mixed' if len(base) > 1 else names[next(iter(base))] if base else 'uni-only'
+    return out + ('+uni' if kinds - base and base else '')
+
+
 def probe_lex(text, sql, msg):
+    """oracle for the illegal-character report, independent of the line-separator convention of the text and of the
+    one the implementation chooses: the echoed line is a piece of the source bounded by line boundaries (start / end of
+    text, or any separator str.splitlines knows) that CONTAINS the offending offset, and the caret column is the
+    distance of that offset from the start of the piece, so that echoed[col] is the offending character"""
     from mindsdb_sql import get_lexer_parser
     lexer, _ = get_lexer_parser(D)
     ix = None
@@ -380,18 +405,38 @@ def probe_lex(text, sql, msg):
         return [fail('lex-msg-but-lexes', 'LexError although the text lexes', text, msg=msg)]
     lines = msg.split('\n')
     m = re.fullmatch(r'(-*)\^', lines[-1])
-    ls = sql.split('\n')
     ln = sql.count('\n', 0, ix)
-    col = ix - (sql.rfind('\n', 0, ix) + 1)
+    colnl = ix - (sql.rfind('\n', 0, ix) + 1)
+    ctx = dict(msg=msg, line=ln, col=colnl, nlines=sql.count('\n') + 1, index=ix, eol=eol_family(sql))
     want = "Illegal character %r:" % sql[ix]
-    if not m or lines[0] != want:
-        return [fail('lex-format', 'unexpected LexError message', text, msg=msg)]
     body = lines[1:-1]
-    if not body or body[-1] != '>' + ls[ln] or len(m.group(1)) != col + 1:
-        return [fail('lex-caret', 'illegal-character caret does not sit under the character in its shown source line',
-                     text, msg=msg, line=ln, col=col, nlines=len(ls))]
-    if len(body) > 1 and (ln == 0 or body[:-1] != ['>' + ls[ln - 1]]):
-        return [fail('lex-context', 'illegal-character context line is not the previous source line', text, msg=msg)]
+    if not m or lines[0] != want or not body or not all(l.startswith('>') for l in body):
+        return [fail('lex-format', 'unexpected LexError message', text, **ctx)]
+    echoed = body[-1][1:]
+    col = len(m.group(1)) - 1
+    start = ix - col
+    end = start + len(echoed)
+    if col < 0 or start < 0 or col >= len(echoed) or sql[start:end] != echoed:
+        at = echoed[col:col + 1] if col >= 0 else None
+        return [fail('lex-caret', 'illegal-character caret does not sit under the character in its shown source line: the '
+                     'caret column %d of the echoed line %r holds %r, the offending character %r is at offset %d (line %d, '
+                     'column %d counting \\n)' % (col, echoed, at, sql[ix], ix, ln, colnl), text, **ctx)]
+    if not ((start == 0 or sql[start - 1] in LINE_BREAKS) and (end == len(sql) or sql[end] in LINE_BREAKS)):
+        return [fail('lex-caret', 'the echoed line %r is not a whole line of the source (it is not bounded by line '
+                     'boundaries)' % echoed, text, **ctx)]
+    if len(body) > 2:
+        return [fail('lex-context', 'more than one context line', text, **ctx)]
+    if len(body) == 2:
+        prev = body[0][1:]
+        head = sql[:start]
+        ok = False
+        for brk in ['\r\n'] + list(LINE_BREAKS):
+            if head.endswith(prev + brk):
+                p0 = len(head) - len(brk) - len(prev)
+                if p0 == 0 or sql[p0 - 1] in LINE_BREAKS:
+                    ok = True
+        if not ok:
+            return [fail('lex-context', 'illegal-character context line is not the previous source line', text, **ctx)]
     return []
 
 
@@ -443,7 +488,11 @@ def relayout(text, rng, hard=False):
     return rng.choice(LEAD) + ''.join(l + rng.choice(seps) for l in lex)
 
 
-def case_stream(rng, n_mut, n_sent, grammar):
+def case_stream(rng, n_mut, n_sent, grammar, rng_eol=None):
+    # round 5: the small multi-line layouts under every separator family come first (own generator state), so that the first
+    # replay of a broken line / column computation is a short text
+    for c in eol_lines(rng_eol or rng, min(max(400, n_mut // 2), 3000)):
+        yield c
     for case in streams.statement_stream(D, rng, n_mut, n_sent, grammar=grammar):
         yield case
         r = rng.random()
@@ -455,6 +504,16 @@ def case_stream(rng, n_mut, n_sent, grammar):
             t = case['text']
             i = rng.randrange(len(t) + 1)
             yield dict(src=case['src'] + '+illegal', text=t[:i] + rng.choice(ILLEGAL) + t[i:])
+        elif r < 0.67 and case['text']:
+            fam, t = relayout_eol(case['text'], rng)
+            if t is not None:
+                if rng.random() < 0.4:
+                    sp = [j for j, ch in enumerate(t) if ch in ' \r\n']
+                    j = rng.choice(sp) if sp else len(t)
+                    t = t[:j] + rng.choice(ILLEGAL + UNI_BREAKS) + t[j:]
+                    yield dict(src='eolrl:%s:ill+' % fam + case['src'], text=t)
+                else:
+                    yield dict(src='eolrl:%s:syn+' % fam + case['src'], text=t)
     for c in lex_after_multiline(rng, max(150, n_mut // 4)):
         yield c
     for c in syn_after_multiline(rng, max(150, n_mut // 4)):
@@ -468,6 +527,9 @@ def case_stream(rng, n_mut, n_sent, grammar):
               "select a from t where", "create", "select a,\n  b,\n  c c c\nfrom t", "\tselect\t1\t1", "select 1 )",
               "select (1", "select a from t order by", "insert into t values (1,", "select a from t limit 1 1",
               "create model m predict", "select a from t where x in (1, 2", "select case when 1 then 2",
+              "select a\r\nfrom t #", "select a,\r\n b,\r\n c from from", "select a\rfrom t\rwhere !", "select a\x0c,b", "select 'a\u2028b',\n c #",
+              "select /* a\r\n b */ 1\r\n, #", "select a,\n\r b ! c", "select\r\n\r\n a #", "select 'a\r\nb' b\r\nfrom from", "select a -- c\x0cd\r\nfrom t t t",
+              "select a\r\nfrom t\r\nwhere", "select `a\x85b` c\r\nfrom\r\n from",
               "select 1;\nselect 2", "select a from b.c d e", "CREATE MODEL IF", "show", "show tables from", "drop", "use a b"]:
         yield dict(src='fixed', text=g)
 
@@ -475,6 +537,15 @@ def case_stream(rng, n_mut, n_sent, grammar):
 MULTI = ["/* a\n b */", "/*\n\n*/", "'a\nb'", "'x\n\ny'", '"a\nb"', "IS\nNOT", "NOT\n  IN", "NOT\n\nLIKE", "is \n not",
          "KNOWLEDGE\nBASE", "PRIMARY\nKEY", "NOT\nEXISTS", "@'a\nb'", "`a\nb`"]
 WORDS = ['select', 'a', ',', 'b', 'from', 't', 'where', 'x', '=', '1', 'and', 'y', '(', ')', 'c']
+
+
+def other_break(cons, rng):
+    """round 5: the break inside a multi-line construct is not always '\\n': CRLF, CR, LF CR or one of the Unicode / control
+    separators of str.splitlines (all of them are white space for the two-word keyword rules)"""
+    if rng.random() < 0.6:
+        return cons
+    b = rng.choice(['\r\n', '\r', '\n\r'] + UNI_BREAKS)
+    return cons.replace('\n', b)
 
 
 def lex_after_multiline(rng, n):
@@ -486,7 +557,7 @@ def lex_after_multiline(rng, n):
     for _ in range(n):
         pre = [words(rng.randint(1, 4)) for _ in range(rng.randint(0, 2))]
         head = words(rng.randint(0, 3))
-        cons = [rng.choice(MULTI) for _ in range(rng.randint(1, 2))]
+        cons = [other_break(rng.choice(MULTI), rng) for _ in range(rng.randint(1, 2))]
         where = rng.choice(['same', 'same', 'next', 'later', 'last', 'before', 'first'])
         ill = rng.choice(ILLEGAL)
         mid = (head + ' ' if head else '') + (' ' + words(rng.randint(0, 2)) + ' ').join(cons)
@@ -513,7 +584,7 @@ def syn_after_multiline(rng, n):
     def words(k):
         return ' '.join(rng.choice(WORDS) for _ in range(k))
     for _ in range(n):
-        cons = rng.choice(MULTI)
+        cons = other_break(rng.choice(MULTI), rng)
         head = rng.choice(['select a,', 'select', 'select b from t where x', 'select 1,', 'select a from t where a'])
         if cons.upper().split()[0] in ('IS', 'NOT', 'KNOWLEDGE', 'PRIMARY'):
             head = 'select a from t where a'
@@ -555,6 +626,115 @@ def eof_after_multiline(rng, n):
         yield dict(src='eofml', text=text)
 
 
+# ---- round 5: every line-separator convention, lexer errors and parser errors -------------------------------------
+EOL_FAMILIES = ['lf', 'crlf', 'cr', 'mixed', 'lfcr']
+UNI_BREAKS = ['\x0b', '\x0c', '\x1c', '\x1d', '\x1e', '\x85', '\u2028', '\u2029']
+EOL_STATEMENTS = [
+    ['select a,', 'b,', 'c', 'from t', 'where x = 1', 'and y = 2', 'order by a', 'limit 5'],
+    ['select *', 'from t1', 'join t2', 'on t1.a = t2.b', 'where t1.c > 0', 'and t2.d < 9'],
+    ['insert into t (a, b)', 'values (1, 2),', '(3, 4)'],
+    ['update t', 'set a = 1,', 'b = 2', 'where c = 3'],
+    ['create model m', 'from db (select * from t)', 'predict y', 'using engine = 1'],
+    ['select a', 'from t', 'where a = 1 and b = 2'],
+    ['select count(*),', 'max(b)', 'from t', 'group by c', 'having max(b) > 3'],
+    ['delete from t', 'where a in (1, 2, 3)', 'and b is not null'],
+]
+STRAY = [')', 'from from', ', ,', 'c c c', 'where where', '1 1 1', '= =']
+
+
+def eol_of(family, rng):
+    if family == 'lf':
+        return '\n'
+    if family == 'crlf':
+        return '\r\n'
+    if family == 'cr':
+        return '\r'
+    if family == 'lfcr':
+        return '\n\r'
+    return rng.choice(['\n', '\r\n', '\r', '\n\r', '\r\r\n', '\n\n', '\r\n\r\n'])
+
+
+def brk_of(family, rng, uni):
+    """a line break INSIDE a token / comment: the family's, or one of the Unicode / control separators"""
+    return rng.choice(UNI_BREAKS) if uni else eol_of(family, rng)
+
+
+def eol_lines(rng, n):
+    """statements laid out on several lines under each line-separator family (LF, CRLF, CR only, LF CR, mixed), optionally with
+    tokens / comments that contain a break themselves (the family's or a Unicode / control separator), and ONE error: an illegal
+    character (an ordinary one, or one of the separators str.splitlines knows) or a stray token, on line 1, 2 or >= 3, at the
+    start, in the middle or at the very end of its line; plus the same without error (control, must be accepted)"""
+    for i in range(n):
+        family = EOL_FAMILIES[i % len(EOL_FAMILIES)]
+        lines = list(rng.choice(EOL_STATEMENTS))
+        uni = rng.random() < 0.35
+        deco = rng.choice(['none', 'none', 'string', 'comment', 'linecomment', 'qid', 'comment-line'])
+        k_deco = rng.randrange(len(lines))
+        if deco == 'string' and re.search(r'\b\d\b', lines[k_deco]):
+            lines[k_deco] = re.sub(r'\b\d\b', lambda m: "'p%sq'" % brk_of(family, rng, uni), lines[k_deco], count=1)
+        elif deco == 'comment':
+            c = '/* a%sb */' % brk_of(family, rng, uni)
+            lines[k_deco] = rng.choice([c + ' ' + lines[k_deco], lines[k_deco] + ' ' + c])
+        elif deco == 'linecomment':
+            lines[k_deco] = lines[k_deco] + ' -- c' + (rng.choice(UNI_BREAKS) + 'd' if uni else '')
+        elif deco == 'qid':
+            lines[k_deco] = re.sub(r'\bt\b', lambda m: '`t%s1`' % brk_of(family, rng, uni), lines[k_deco], count=1)
+        elif deco == 'comment-line':
+            lines.insert(k_deco, '/* a%sb */' % brk_of(family, rng, uni))
+        kind = rng.choice(['ill', 'ill', 'ill', 'ill-sep', 'tok', 'tok', 'none'])
+        where = rng.choice(['first', 'second', 'later', 'later', 'last'])
+        k = {'first': 0, 'second': min(1, len(lines) - 1), 'last': len(lines) - 1}.get(where)
+        if k is None:
+            k = rng.randrange(min(2, len(lines) - 1), len(lines))
+        pos = rng.choice(['start', 'mid', 'end', 'end'])
+        if kind != 'none':
+            ins = {'ill': rng.choice(ILLEGAL), 'ill-sep': rng.choice(UNI_BREAKS), 'tok': rng.choice(STRAY)}[kind]
+            glue = rng.choice(['', ' ']) if kind != 'tok' else ' '
+            line = lines[k]
+            if pos == 'start':
+                line = ins + glue + line
+            elif pos == 'end':
+                line = line + glue + ins
+            else:
+                sp = [j for j, ch in enumerate(line) if ch == ' ']
+                j = rng.choice(sp) if sp else len(line)
+                line = line[:j] + ' ' + ins + glue + line[j:]
+            lines[k] = line
+        indent = rng.choice(['', '', '  ', '\t'])
+        text = lines[0] + ''.join(eol_of(family, rng) + (indent if rng.random() < 0.5 else '') + l for l in lines[1:])
+        if rng.random() < 0.15:
+            text = eol_of(family, rng) + text
+        yield dict(src='eol:%s:%s:%s:%s%s' % (family, kind, where, pos, ':uni' if uni else ''), text=text)
+
+
+def relayout_eol(text, rng):
+    """the lexemes of a statement of the stream (valid or not) joined by blanks and line breaks of ONE separator family,
+    with comments / breaks of that family between them"""
+    from mindsdb_sql import get_lexer_parser
+    lexer, _ = get_lexer_parser(D)
+    try:
+        toks = list(lexer.tokenize(text))
+    except Exception:
+        return None, None
+    family = rng.choice(EOL_FAMILIES)
+    lex = [text[t.index:t.end] for t in toks]
+
+    def sep():
+        r = rng.random()
+        e = eol_of(family, rng)
+        if r < 0.55:
+            return ' '
+        if r < 0.85:
+            return e + rng.choice(['', '', '  ', '\t'])
+        if r < 0.90:
+            return ' ' + e
+        if r < 0.95:
+            return ' /* x%sy */ ' % brk_of(family, rng, rng.random() < 0.4)
+        return e + e
+    out = (eol_of(family, rng) if rng.random() < 0.1 else '') + ''.join(l + sep() for l in lex)
+    return family, out
+
+
 def layout_invariant(toks, sql):
     """the hypotheses of C19_caret_partial, checked on the real token list: index/lineno monotone,
     value no longer than the gap to the next token"""
@@ -580,14 +760,18 @@ def run(chk):
     lines, metas, dist = [], [], {}
     klines, kmetas = [], []
     lrlines, lrmetas = [], []
+    mlines, mmetas = [], []
     lay_bad = None
     src_bad = None
     lno_bad = None
-    for case in case_stream(rng, n_mut, n_sent, G):
+    for case in case_stream(rng, n_mut, n_sent, G, common.rng_for(chk.seed, 'C19/eol')):
         text = case['text']
         kind, msg = real_message(text)
         key0 = case['src'].split(':')[0].split('+')[0] + ('+layout' if '+layout' in case['src'] else '')
         dist['%s/%s' % (key0, kind.split(':')[0])] = dist.get('%s/%s' % (key0, kind.split(':')[0]), 0) + 1
+        if case['src'].startswith('eol'):
+            fam = case['src'].split(':')[1]
+            dist['eol/%s/%s' % (fam, kind.split(':')[0])] = dist.get('eol/%s/%s' % (fam, kind.split(':')[0]), 0) + 1
         if kind == 'accept':
             continue
         chk.count((text,))
@@ -632,6 +816,18 @@ def run(chk):
                 lines.append('L %d %s' % (info['lexerr'], enc(info['sql'])))
                 metas.append((case, '\n'.join(msg.split('\n')[1:])))
                 dist['corr/lex'] = dist.get('corr/lex', 0) + 1
+                # round 5: the COMPLETE message (header with the repr of the character, echoed lines, caret) of the text-level
+                # model `lexErrorMsg`, the object of C19_full_lexer_caret_holds
+                ch = info['sql'][info['lexerr']]
+                if ord(ch) < 0x100 or ch in '\u2028\u2029' or ch.isprintable():
+                    mlines.append('M %d %s' % (info['lexerr'], enc(info['sql'])))
+                    mmetas.append((case, msg))
+                    fk = 'lexcorr/' + eol_family(info['sql'])
+                    dist[fk] = dist.get(fk, 0) + 1
+                    ln = min(info['sql'].count('\n', 0, info['lexerr']), 2)
+                    dist['lexcorr/line:%d' % ln] = dist.get('lexcorr/line:%d' % ln, 0) + 1
+                else:
+                    dist['lexcorr/skipped-repr'] = dist.get('lexcorr/skipped-repr', 0) + 1
     dist.update({'phi19/' + k_: v for k_, v in KIND_STATS.items()})
     chk.oblige('probe:value-is-source', 'probe', src_bad is None,
                '' if src_bad is None else 'real lexer produced a token whose value is not its source slice '
@@ -653,6 +849,19 @@ def run(chk):
         chk.corr_result('err-message', len(lines), diverged, first, dist)
     except Exception as e:
         chk.oblige('corr:err-message', 'correspondence', False, 'driver failed: %s' % e)
+    try:
+        outs = common.lean_run('ErrLine', mlines) if mlines else []
+        diverged, first = 0, None
+        for (case, want), o in zip(mmetas, outs):
+            got = dec(o) if re.fullmatch(r'-|[\d,]+', o) else o
+            if got != want:
+                diverged += 1
+                if first is None:
+                    first = dict(text=case['text'], src=case['src'], impl=want, model=got)
+        chk.corr_result('err-lex', len(mlines), diverged, first,
+                        {k_: v for k_, v in dist.items() if k_.startswith('lexcorr/')})
+    except Exception as e:
+        chk.oblige('corr:err-lex', 'correspondence', False, 'driver failed: %s' % e)
     try:
         outs = common.lean_run('LR', lrlines)
         diverged, first = 0, None
@@ -686,6 +895,9 @@ def run(chk):
                             'every token t starting on that line is shown at t.index - shift with its source text'))
     chk.samples.append(dict(theorem='C19_parser_bad_token T: parse (pre ++ rest) = none_ ⟨some k, s⟩ log ∧ k < |pre| → ErrAt T (pre ++ rest) ⟨some k, s⟩ ∧ '
                             '(parse (pre ++ rest\') fuel\' = none_ ⟨some k, s⟩ log ∨ = fuel)'))
+    chk.samples.append(dict(theorem='C19_full_lexer_caret: ∀ text index c, text[index]? = some c → c ≠ \'\\n\' → ∃ pre line post col, '
+                            'text = termLines pre ++ line ++ sepLines post ∧ (no \'\\n\' in any of them) ∧ |termLines pre| + col = index ∧ '
+                            'line[col]? = some c ∧ lexErrorMsg text index = header(repr c) \\n [> last of pre] \\n > line \\n "-"*(col+1) ++ "^"'))
     return chk.finish(assumptions=ASSUME)
 
 
